@@ -82,8 +82,9 @@ def prove_lemma(repo, reg, name, timeout_ms):
         n = bound[lm.induct].z
         prev = z3.substitute(body, (n, n - 1))
         res = []
+        used = [lemma_formula(ex, u) for u in lm.uses]
         for what, hyp in (('base', [n <= 0]), ('step', [n > 0, prev])):
-            r = solve_conj(Q(hyp, body), timeout_ms, False)
+            r = solve_conj(Q(hyp + used, body), timeout_ms, False)
             res.append((what, r['status']))
         if all(r == 'proved' for _, r in res):
             return dict(name=name, status='proved', backend=f'z3 (induction on {lm.induct}: base + step)',
